@@ -46,7 +46,9 @@ RULE = ("valid messages generated from the dumped metadata (every message type; 
         "or into / out of a group, mandatory token deleted, random token deleted, first token of a group element deleted or swapped, "
         "int text variants (+5 1e3 007 -0 -7), BeginString changed, zero-padded tag, token without '=' / with empty tag (also inside "
         "group elements), value of 2046..3000 bytes / BodyLength or MsgType text of 29..43 bytes (buffer capacities), part fields "
-        "reshuffled, count changed, last token dropped, unknown MsgType.  non-trivial = the decoder got past the preamble (result is an "
+        "reshuffled, count changed, last token dropped, unknown MsgType; plus a long-message class: conforming messages of 2 KB .. "
+        "8000 bytes (repeated group elements, long string values over digit / upper / lower / '~' / 0x80..0xff alphabets), each with the "
+        "correct CheckSum and with the byte sum +-1..6 and another wrong value.  non-trivial = the decoder got past the preamble (result is an "
         "object dump or an exception other than InvalidMessage) on at least 8 tokens; distinct = distinct case lines")
 
 
@@ -517,6 +519,89 @@ MUTATIONS = [(m_unknown, 12), (m_bigtag, 8), (m_badck, 4), (m_chktext, 5), (m_ba
              (m_malformed, 3), (m_longval, 3), (m_reorder, 5), (m_count, 4), (m_truncate, 1), (m_msgtype, 2)]
 
 
+# ------------------------------------------------------------------------------ long messages
+LONG_ALPHABETS = (b"0123456789", b"ABCDEFGHIJKLMNOPQRSTUVWXYZ", b"abcdefghijklmnopqrstuvwxyz", b"~", b"~}|{zyxwv",
+                  b"ABCDEFGHIJKLMNOPQRSTUVWXYZabcdefghijklmnopqrstuvwxyz0123456789 .,:;/+-_#@!?*()<>",
+                  bytes(range(0x80, 0x100)), bytes((0xff,)))
+
+
+def long_text(rng, alphabet, lo, hi):
+    return bytes(rng.choice(alphabet) for _ in range(rng.randint(lo, hi)))
+
+
+def lengthen(m, rng, target):
+    """Grow a valid message to about `target` bytes without leaving the schema: the elements of its top-level repeating
+    groups are repeated (fresh values), string-typed values are made long (always far below the 2047 byte buffer)."""
+    meta = m.meta
+    alphabet = rng.choice(LONG_ALPHABETS)
+
+    def is_string(x):
+        return x.raw is None and meta.fields.get(x.tag, (0,))[0] == G.FT_STRING and x.tag not in G.AUTO
+
+    for _ in range(400):
+        if len(m.bytes()) >= target:
+            break
+        counts = [i for i, x in enumerate(m.toks) if x.depth == 0 and meta.trait(x.owner, x.tag) is not None
+                  and meta.trait(x.owner, x.tag).group and i + 1 < len(m.toks) and m.toks[i + 1].depth == 1]
+        strings = [x for x in m.toks if is_string(x) and len(x.val) < 300]
+        if counts and (rng.random() < 0.7 or not strings):
+            i = rng.choice(counts)
+            j = i + 1
+            while j < len(m.toks) and m.toks[j].depth > 0:
+                j += 1
+            first = [x for x in m.toks[i + 1:j] if x.elem == m.toks[i + 1].elem or x.depth > 1]
+            k = 1
+            while i + 1 + k < j and not (m.toks[i + 1 + k].depth == 1 and m.toks[i + 1 + k].first):
+                k += 1
+            elem = m.toks[i + 1:i + 1 + k]                      # the first element with what is nested in it
+            _elem_id[0] += 1
+            new = []
+            for x in elem:
+                y = x.copy()
+                if y.depth == 1:
+                    y.elem = _elem_id[0]
+                if is_string(y):
+                    y.val = long_text(rng, alphabet, 20, 160)
+                new.append(y)
+            m.toks[j:j] = new
+            n = sum(1 for x in m.toks[i + 1:j + len(new)] if x.depth == 1 and x.first)
+            m.toks[i].val = str(n).encode()
+        elif strings:
+            rng.choice(strings).val = long_text(rng, alphabet, 300, 1500)
+        else:
+            break
+    return m
+
+
+def long_cases(meta, rng, px, n_msgs):
+    """Conforming messages of 2 KB .. 8000 bytes, each with the correct CheckSum (must be accepted, every token retained)
+    and with the byte sum +-1..6 and other wrong values (must be rejected): Message::calc_chksum's carry counters are
+    folded every 256 bytes, which only long inputs exercise."""
+    cs = []
+    grouped = [mt for mt in sorted(meta.msgs) if any(
+        t.ftype == G.FT_STRING for sub in meta.groups.get(mt, {}).values() for t in meta.traits.get(sub, []))]
+    gen = G.MsgGen(meta, rng, p_opt=0.25, shuffle=False)
+    k = 0
+    for _ in range(n_msgs * 4):
+        if k >= n_msgs:
+            break
+        mt = rng.choice(grouped) if grouped and rng.random() < 0.8 else None
+        m = Msg(meta, rng, gen, mt, shuffle=False)
+        target = rng.choice((2100, 2600, 3600, 5200, 6500, 7900, rng.randint(2000, 7900)))
+        lengthen(m, rng, target)
+        raw = m.bytes()
+        if not (2000 <= len(raw) <= 8000) or not tag_buffer_defined(meta, raw):
+            continue
+        k += 1
+        cs.append(Case(px + "DEC s " + raw.hex(), "long-valid"))
+        deltas = rng.sample((1, 2, 3, 4, 5, 6), 2) + [256 - d for d in rng.sample((1, 2, 3, 4, 5, 6), 2)] + [rng.randrange(7, 250)]
+        for d in deltas:
+            m.chk = d
+            cs.append(Case(px + "DEC s " + m.bytes().hex(), "long-bad-checksum"))
+        m.chk = None
+    return cs
+
+
 def pick_mut(rng):
     tot = sum(w for _, w in MUTATIONS)
     r = rng.randrange(tot)
@@ -586,6 +671,7 @@ def gen_cases(rng, tier):
                 one(rng.choice(grouped) if f in (m_nofirst, m_count) or rng.random() < 0.4 else None, 1, f)
         for _ in range((4000 if schema == "utest" else 1500) if thorough else 1500):
             one(rng.choice(grouped) if rng.random() < 0.35 else None)
+        cs.extend(long_cases(meta, rng, px, (60 if thorough else 24) if schema == "utest" else 20))
     return cs
 
 
